@@ -68,6 +68,26 @@ Proof.
 Qed.
 End P.
 
+(* the deterministic CGNE solver "with non-increasing residuals": for the executed model, every matrix, every budget, every stopping
+   predicate and every break threshold that excludes ||W|| = 0, the recorded squared residuals never increase, starting from the
+   residual of the initial iterate alpha0 A^H.  (Exact arithmetic: exact line search keeps <R, D A> = ||Z||^2 for any beta, so one
+   step subtracts ||Z||^4 / ||W||^2.) *)
+From Coq Require Import Reals.
+From QV Require Import CRingR.
+From QVT Require Import CGNEmono CGNEmonoR.
+Theorem C13_cgne_history_never_increases (retab : nat -> nat -> qmat RR -> qmat RR) (small : R -> bool) m n (A : qmat RR) alpha0 stop k sf hf :
+  (forall p q M, meq p q (retab p q M) M) -> (forall b, small b = false -> b <> 0%R) ->
+  cg_run RR retab Rdiv small m n A stop k (cg_init RR retab m n alpha0 A) [] = (sf, hf) ->
+  nonincr (frob2 n n (cgR RR (cg_init RR retab m n alpha0 A)) :: hf).
+Proof. intros Hr Hs. exact (cgne_run_history_nonincreasing retab small Hr Hs m n A alpha0 stop k sf hf). Qed.
+(* the one-step identity behind it, over any commutative component ring *)
+Theorem C13_cgne_step_value (C : CRing) (retab : nat -> nat -> qmat C -> qmat C) (cdiv : C -> C -> C) (small : C -> bool) m n (A : qmat C) s s1 r2 :
+  (forall p q M, meq p q (retab p q M) M) -> (forall a b, small b = false -> cmul (cdiv a b) b = a) ->
+  Cinv C m n A s -> cg_update C retab cdiv small m n A s = Some (s1, r2) ->
+  cmul r2 (frob2 n n (qmm m (cgD C s) A)) =
+  csub (cmul (frob2 n n (cgR C s)) (frob2 n n (qmm m (cgD C s) A))) (cmul (frob2 n m (cgZ C s)) (frob2 n m (cgZ C s))).
+Proof. intros Hr Hd HC E. exact (proj1 (proj2 (update_value C retab cdiv small Hr Hd m n A s s1 r2 HC E))). Qed.
+
 Print Assumptions C13_cgne_residual_recurrence.
 Print Assumptions C13_cgne_flag_sound.
 Print Assumptions C13_projection_step.
@@ -75,3 +95,5 @@ Print Assumptions C13_hyperpower.
 
 Print Assumptions C13_projection_step_keeps_rowspace.
 Print Assumptions C13_left_inverse_in_rowspace_is_pseudoinverse.
+Print Assumptions C13_cgne_history_never_increases.
+Print Assumptions C13_cgne_step_value.
